@@ -131,7 +131,7 @@ def graph_cases(draw, tier="quick"):
     if all(x == "nan" for x in labels):
         labels[0] = 0.0
     shape = batch + by_shape
-    chunks = [gen.draw_chunks(draw, s, max_blocks=14) for s in shape]
+    chunks = [gen.draw_chunks(draw, s, max_blocks=24 if by_ndim == 1 else 12) for s in shape]
     present = sorted({x for x in labels if x != "nan"})
     mode = draw(st.sampled_from(["none", "none", "superset", "subset"]))
     case = {"mode": "graph", "shape": shape, "by": {"dt": "<f8", "sh": by_shape, "v": labels}, "chunks": chunks,
